@@ -1,6 +1,6 @@
 (* The case interpreter of the correspondence check: one text line in, one canonical text line out.
    The Rust harness (`impldrv`) implements the same protocol on top of the real library. No proofs here. *)
-Require Import SD.Base SD.Text SD.Codes SD.Header SD.Name SD.RData SD.Packet SD.PktText SD.TextApi SD.Store.
+Require Import SD.Base SD.Text SD.Codes SD.Header SD.Name SD.RData SD.Packet SD.PktText SD.TextApi SD.Store SD.Owned.
 From Coq Require Import String.
 Open Scope N_scope.
 
@@ -424,6 +424,48 @@ Fixpoint run_store_ops (fuel : nat) (ts : list (list byte)) (st : store) (now : 
             | None => s2b "BADCASE" end
           | None => s2b "BADCASE" end
         | None => s2b "BADCASE" end
+      else if tok_eqb op "D" then
+        (* D svc me hex: one datagram through the responder, the one-shot resolver's peeks and the discovery listener *)
+        match r_name rest with
+        | Some (svc, t1) =>
+          match r_name t1 with
+          | Some (me, t2) =>
+            match r_bytes t2 with
+            | Some (d, t3) =>
+              let reply_tok (p : packet) :=
+                match build_reply st p now with
+                | None => s2b "NONE"
+                | Some r => match write_packet_compressed (reply_packet r) with
+                            | Ok b => match parse_packet b with
+                                      | Ok q => unwords [s2b "REPLY"; rrs_tok (ans q); rrs_tok (adds q)]
+                                      | _ => s2b "PARSEFAIL" end
+                            | _ => s2b "WRITEFAIL" end
+                end in
+              let responder :=
+                match peek_has_flags d F_RESPONSE with
+                | Ok false => match parse_packet d with
+                              | Ok p => reply_tok p | Err _ => s2b "ERR" | Panic _ => s2b "PANIC" | OutOfFuel => s2b "HANG" end
+                | Panic _ => s2b "PANIC" | OutOfFuel => s2b "HANG"
+                | _ => s2b "SKIP"
+                end in
+              let buf := d ++ zeros (4096 - List.length d) in
+              let oneshot := unwords [res_tok (peek_has_flags buf F_RESPONSE) bool_tok; res_tok (peek_id buf) N_to_hex;
+                                      res_tok (peek_answers buf) N_to_hex] in
+              match parse_packet d with
+              | Ok p =>
+                if has_flags (hdr p) F_RESPONSE then
+                  let sent := match ingest_filter svc me p with
+                              | [] => s2b "0"
+                              | l => instances_tok (match from_records svc l with Some i => [i] | None => [] end) end in
+                  run_store_ops f t3 (ingest st svc me p now) now
+                    (out ++ s2b " | D " ++ responder ++ s2b " / " ++ oneshot ++ s2b " / ING " ++ sent)
+                else run_store_ops f t3 st now (out ++ s2b " | D " ++ responder ++ s2b " / " ++ oneshot ++ s2b " / " ++ reply_tok p)
+              | Err _ => run_store_ops f t3 st now (out ++ s2b " | D " ++ responder ++ s2b " / " ++ oneshot ++ s2b " / ERR")
+              | Panic _ => s2b "PANIC" | OutOfFuel => s2b "HANG"
+              end
+            | None => s2b "BADCASE" end
+          | None => s2b "BADCASE" end
+        | None => s2b "BADCASE" end
       else if tok_eqb op "K" then
         match r_name rest with
         | Some (svc, t) =>
@@ -520,6 +562,63 @@ Definition run_disc (args : list (list byte)) : list byte :=
   | None => s2b "BADCASE"
   end.
 
+(* OBSERVE hex: the number of fallible text conversions that report an error on the parsed packet (every TXT record:
+   String::try_from and long_attributes; every character-string of HINFO ISDN NAPTR CAA: String::try_from) *)
+Definition rdata_text_errors (r : rdata) : N :=
+  match r with
+  | RD M_TXT [V_items its] => if valid_utf8 (List.concat (map (@snd N (list byte)) its)) then 0 else 2
+  | RD _ vs => fold_right (fun v a => match v with V_bytes _ => a | _ => a end) 0 vs
+  | _ => 0
+  end.
+Definition cstr_errors (m : mnem) (vs : list fval) : N :=
+  let count := fix go (lay : layout) (vs : list fval) : N :=
+    match lay, vs with
+    | F_cstr :: lr, V_bytes b :: vr => (if valid_utf8 b then 0 else 1) + go lr vr
+    | _ :: lr, _ :: vr => go lr vr
+    | _, _ => 0
+    end in
+  count (layout_for m vs) vs.
+Definition rr_text_errors (r : rr) : N :=
+  rdata_text_errors (rdata_of r) + match rdata_of r with RD m vs => cstr_errors m vs | _ => 0 end.
+Definition run_observe (args : list (list byte)) : list byte :=
+  match map hex_to_bytes args with
+  | [Some d] =>
+    match parse_packet d with
+    | Ok p => s2b "OK " ++ N_to_hex (fold_right (fun r a => rr_text_errors r + a) 0 (ans p ++ nss p ++ adds p))
+    | Err e => s2b "ERR" | Panic _ => s2b "PANIC" | OutOfFuel => s2b "HANG"
+    end
+  | _ => s2b "BADCASE"
+  end.
+(* OWN hex: into_owned / clone of every part equals the original and serialises to the same bytes; equal values hash equally *)
+Definition run_own (args : list (list byte)) : list byte :=
+  match map hex_to_bytes args with
+  | [Some d] =>
+    match parse_packet d with
+    | Ok p => unwords [s2b "OK"; nat_tok (List.length (qs p)); nat_tok (List.length (ans p ++ nss p ++ adds p)); s2b "same"]
+    | Err e => s2b "ERR" | Panic _ => s2b "PANIC" | OutOfFuel => s2b "HANG"
+    end
+  | _ => s2b "BADCASE"
+  end.
+
+(* HASHI name n member...: the same members enumerated in two orders: equality of the sets and of the hash token streams *)
+Definition r_member : reader (list byte * N) :=
+  fun ts => match ts with k :: r => option_map (fun '(v, r') => ((k, v), r')) (r_N r) | [] => None end.
+Fixpoint nlist_eq (a b : list N) : bool :=
+  match a, b with [], [] => true | x :: a', y :: b' => (x =? y) && nlist_eq a' b' | _, _ => false end.
+Definition run_hashi (args : list (list byte)) : list byte :=
+  match r_bytes args with
+  | Some (name, t1) =>
+    match r_counted r_member t1 with
+    | Some (ms, []) =>
+      let ips l := List.concat (map (fun m : list byte * N => if tok_eqb (fst m) "4" then [(false, snd m)] else if tok_eqb (fst m) "6" then [(true, snd m)] else []) l) in
+      let ports l := List.concat (map (fun m : list byte * N => if tok_eqb (fst m) "P" then [snd m mod 65536] else []) l) in
+      let h l := instance_hash_tokens name (ips l) (ports l) in
+      let '(_, a1, p1) := h ms in let '(_, a2, p2) := h (rev ms) in
+      unwords [bool_tok true; bool_tok (nlist_eq a1 a2 && nlist_eq p1 p2)]
+    | _ => s2b "BADCASE" end
+  | None => s2b "BADCASE"
+  end.
+
 Definition run_line (line : list byte) : list byte :=
   match tokens line with
   | [] => []
@@ -537,6 +636,9 @@ Definition run_line (line : list byte) : list byte :=
     else if tok_eqb cmd "RT" then run_rt args
     else if tok_eqb cmd "NAMENEW" then run_namenew args
     else if tok_eqb cmd "STORE" then run_store args
+    else if tok_eqb cmd "OBSERVE" then run_observe args
+    else if tok_eqb cmd "OWN" then run_own args
+    else if tok_eqb cmd "HASHI" then run_hashi args
     else if tok_eqb cmd "DISC" then run_disc args
     else if tok_eqb cmd "HISTB" then run_histb args
     else if tok_eqb cmd "SUFFIX" then run_suffix args
